@@ -3,7 +3,7 @@
    Gen/Kernels.v) and C02/Proofs.v (ledger invariants of C02/Model.v over all histories).
    S = total shares of a pool as the scaled integer of the LegacyDec (10^-18 units), T = pool amount. *)
 From Coq Require Import List String Bool ZArith Lia.
-From Exo Require Import Base.IntDec Base.IntDec2 Base.Util Gen.Kernels C02.Model C02.Laws C02.Proofs C02.ProofsOp.
+From Exo Require Import Base.IntDec Base.IntDec2 Base.Util Gen.Kernels C02.Model C02.Laws C02.Proofs C02.ProofsOp C02.Interleaved.
 Import ListNotations.
 Local Open Scope Z_scope.
 
@@ -68,6 +68,27 @@ Theorem C02_bystander_undelegate : forall S T r out shB b b',
   TokensFromShares r S T = KOk out -> TokensFromShares shB S T = KOk b ->
   TokensFromShares shB (S - r) (T - out) = KOk b' -> b - 1 <= b' <= b + 1 /\ 0 <= out <= T.
 Proof. exact bystander_undelegate. Qed.
+
+(* fairness across INTERLEAVED operations of other stakers (no slash): every foreign delegation (FDel) / undelegation
+   (FUnd, of the others' own shares) moves the redeemable value of A's shares by at most one unit, for any list fs *)
+Theorem C02_interleaved_bystander : forall shA fs S T S' T' b b',
+  0 < shA <= S -> 0 <= T <= S -> prun shA (S, T) fs = Some (S', T') ->
+  TokensFromShares shA S T = KOk b -> TokensFromShares shA S' T' = KOk b' ->
+  b - count_und fs <= b' <= b + Z.of_nat (List.length fs).
+Proof. exact interleaved_bystander. Qed.
+
+(* ... hence a staker who delegated x and redeems its minted shares after the foreign operations fs gets back at
+   least x - 1 - #foreign undelegations and at most x + #foreign operations (the others' rounding losses accrue to
+   the pool, so "at most x" holds only for the immediate round trip C02_round_trip, i.e. fs = []) *)
+Theorem C02_round_trip_interleaved : forall S T x sh fs S' T' t,
+  0 < S -> 0 < T -> rate_ok S T = true -> 0 < x ->
+  SharesFromTokens S x T = KOk sh -> prun sh (S + sh, T + x) fs = Some (S', T') ->
+  TokensFromShares sh S' T' = KOk t ->
+  x - 1 - count_und fs <= t <= x + Z.of_nat (List.length fs).
+Proof.
+  intros S T x sh fs S' T' t HS HT Hr. unfold rate_ok in Hr. apply Z.leb_le in Hr.
+  intros Hx. apply round_trip_interleaved; assumption.
+Qed.
 
 (* ================= ledger invariants over ALL histories ================= *)
 (* reachable = run ops st0 l for an arbitrary operation list l (Deposit, Delegate, Undelegate incl. the
@@ -139,8 +160,9 @@ Theorem C02_zero_pool_bricks_pool :
   snd (step ["O"%string] s (Undelegate "B" "usdt" "O" 1)) = RErr.
 Proof. vm_compute. repeat split; reflexivity. Qed.
 
-(* "operatorShare = sum of the associated stakers' shares" is FALSE of the faithful model (and of the code: known
-   finding C02-staker-prefix-scan): the scan prefix has no delimiter, 0x6 is a prefix of 0x65 *)
+(* "operatorShare = sum of the associated stakers' shares": the unrestricted statement (any strings as ids); it was FALSE
+   of the code before the repair of the prefix scan (0x6 is a prefix of 0x65); C02_operator_share below proves it for all
+   histories over well-formed ids *)
 Definition C02_operator_share_full : Prop :=
   forall ops l o a, p_op (pool_of (run ops st0 l) o a) = rows_sum_assoc (st_assoc (run ops st0 l)) (st_rows (run ops st0 l)) o a.
 
@@ -155,22 +177,30 @@ Example C02_operator_share_prefix_witness_now_holds :
   p_op (pool_of (run ["O"%string] st0 operator_share_witness) "O" "usdt") = 0.
 Proof. vm_compute. split; reflexivity. Qed.
 
-(* what does hold: in every history whose Associate/Dissociate scans are exact (no associated staker id is a scan
-   prefix of another staker's row key — e.g. all client-chain ids have hex strings of equal length), OperatorShare is
-   the sum of the associated stakers' shares, in every pool, after every operation *)
-Theorem C02_operator_share_partial : forall ops l, scan_exact_b l = true ->
+(* FULL theorem (since the scan prefix ends with "/"): for every history whose staker ids are well-formed, i.e. contain
+   no "/" (real ids are 0x<hex>_0x<hex>), OperatorShare is the sum of the associated stakers' shares, in every pool,
+   after every operation. [wf_ids_b] is a boolean over the history; C02_wf_ids_example shows it is satisfiable and that it
+   rejects an id with a "/". The scan-exactness form (C02_operator_share_scan_exact) is kept: it is the weaker
+   hypothesis that also covered the pre-repair scan. *)
+Theorem C02_operator_share : forall ops l, wf_ids_b l = true ->
+  forall o a, p_op (pool_of (run ops st0 l) o a) =
+              rows_sum_assoc (st_assoc (run ops st0 l)) (st_rows (run ops st0 l)) o a.
+Proof. exact operator_share_wf. Qed.
+
+Theorem C02_operator_share_monitored : forall ops l, wf_ids_b l = true -> inv_opshare_b (run ops st0 l) = true.
+Proof. intros ops l H. apply inv_opshare_b_of. intros o a. apply operator_share_wf. assumption. Qed.
+
+Theorem C02_operator_share_scan_exact : forall ops l, scan_exact_b l = true ->
   forall o a, p_op (pool_of (run ops st0 l) o a) =
               rows_sum_assoc (st_assoc (run ops st0 l)) (st_rows (run ops st0 l)) o a.
 Proof. exact operator_share_exact. Qed.
 
-Theorem C02_operator_share_monitored : forall ops l, scan_exact_b l = true -> inv_opshare_b (run ops st0 l) = true.
-Proof. intros ops l H. apply inv_opshare_b_of. intros o a. apply operator_share_exact. assumption. Qed.
-
-Example C02_scan_exact_witnesses :
-  scan_exact_b operator_share_witness = true /\
-  scan_exact_b [Deposit "0xaa_0x65" "usdt" 1000; Delegate "0xaa_0x65" "usdt" "O" 1000; Associate true "0xaa_0x65" "O";
-                Delegate "0xab_0x65" "usdt" "O" 5; Dissociate "0xaa_0x65"]%string = true.
-Proof. vm_compute. split; reflexivity. Qed.
+Example C02_wf_ids_example :
+  wf_ids_b operator_share_witness = true /\
+  wf_ids_b [Deposit "0xaa_0x65" "usdt" 1000; Delegate "0xaa_0x65" "usdt" "O" 1000; Delegate "0xaa_0x65" "usdc" "O" 7;
+            Associate true "0xaa_0x65" "O"; Delegate "0xab_0x65" "usdt" "O" 5; Dissociate "0xaa_0x65"]%string = true /\
+  wf_ids_b [Associate true "0xaa/usdt" "O"]%string = false.
+Proof. vm_compute. repeat split; reflexivity. Qed.
 
 (* non-vacuity: a history that exercises every operation kind and ends in a non-trivial state satisfying everything above *)
 Example C02_nonvacuous :
